@@ -35,6 +35,11 @@ type vpPreENI struct {
 	N6    int    `json:"n6"`
 	Bound []int  `json:"bound,omitempty"`  // pods that have a stored record on address #i (non-primary first)
 	Legacy bool  `json:"legacy,omitempty"` // stored records use the legacy "mac.ip" id form
+	// AsSecondary (type trunk only): the interface IS a trunk interface in the cloud, but the
+	// daemon runs it as an ordinary secondary one (trunking disabled, or not the preferred
+	// trunk: daemon/builder.go builds it with NewLocal(ni, "secondary", ...)). It must still
+	// never be deleted.
+	AsSecondary bool `json:"as_secondary,omitempty"`
 }
 
 type vpCfg struct {
@@ -140,6 +145,9 @@ func vpGenCfg(t *rapid.T, mode string) vpCfg {
 			p.Bound = append(p.Bound, rapid.IntRange(0, vpPods-1).Draw(t, "bpod"))
 		}
 		p.Legacy = rapid.IntRange(0, 4).Draw(t, "legacy") == 0 && !c.V6
+		if p.Type == "trunk" {
+			p.AsSecondary = rapid.IntRange(0, 2).Draw(t, "assecondary") == 0
+		}
 		c.Pre = append(c.Pre, p)
 	}
 	if rapid.IntRange(0, 4).Draw(t, "erdmaslot") == 0 {
@@ -164,11 +172,16 @@ func vpGenOp(t *rapid.T, mode string) vpOp {
 	case "C07":
 		kinds = append(kinds, "faults", "faults", "cancelalloc", "cancelalloc", "syncpool", "cancelledcreate")
 	}
+	kinds = append(kinds, "slowrelease")
 	o := vpOp{Kind: rapid.SampledFrom(kinds).Draw(t, "kind")}
 	o.JitterUS = rapid.IntRange(0, 400).Draw(t, "jitter")
 	switch o.Kind {
 	case "alloc", "release":
 		o.Pod = rapid.IntRange(0, vpPods-1).Draw(t, "pod")
+	case "slowrelease":
+		o.Pod = rapid.IntRange(0, vpPods-1).Draw(t, "pod")
+		o.A = rapid.IntRange(0, vpPods-1).Draw(t, "otherpod")
+		o.B = rapid.IntRange(0, 1).Draw(t, "other")
 	case "cancelalloc":
 		o.Kind = "alloc"
 		o.Pod = rapid.IntRange(0, vpPods-1).Draw(t, "pod")
@@ -272,6 +285,7 @@ type vpWorld struct {
 	lateWorker      bool
 	cancelledCreate bool
 	staleRelease    bool
+	slowRelease     bool
 	repeatAlloc     bool
 	allocOK, allocErr, allocTimeout int
 	knownSkipped    int
@@ -398,23 +412,27 @@ func vpBuild(c *vt.Ctx, s vpScenario) *vpWorld {
 				w.hold[res.IP.IPv6] = vpHold{pid, e.ID}
 			}
 		}
-		lo := NewLocal(e, p.Type, fac, pc)
+		runAs := p.Type
+		if p.Type == "trunk" && p.AsSecondary {
+			runAs = "secondary"
+		}
+		lo := NewLocal(e, runAs, fac, pc)
 		w.locals = append(w.locals, lo)
-		if p.Type == "trunk" {
-			nis = append(nis, NewTrunk(nil, lo))
+		if runAs == "trunk" {
+			nis = append(nis, &vpSched{NetworkInterface: NewTrunk(nil, lo), local: lo})
 		} else {
-			nis = append(nis, lo)
+			nis = append(nis, &vpSched{NetworkInterface: lo, local: lo})
 		}
 	}
 	for i := 0; i < cfg.Erdma; i++ {
 		lo := NewLocal(nil, "erdma", fac, pc)
 		w.locals = append(w.locals, lo)
-		nis = append(nis, lo)
+		nis = append(nis, &vpSched{NetworkInterface: lo, local: lo})
 	}
 	for i := 0; i < cfg.Slots; i++ {
 		lo := NewLocal(nil, "secondary", fac, pc)
 		w.locals = append(w.locals, lo)
-		nis = append(nis, lo)
+		nis = append(nis, &vpSched{NetworkInterface: lo, local: lo})
 	}
 	total := cfg.Cap * len(w.locals)
 	w.mgr = NewManager(cfg.MinIdle, cfg.MaxIdle, total, 0, nis, daemon.EniSelectionPolicy(cfg.Policy), nil)
@@ -773,6 +791,8 @@ func (w *vpWorld) doLateWorker(o vpOp) {
 		ch, _ = ni.Allocate(ctxA, cni, req)
 		if ch != nil {
 			switch x := ni.(type) {
+			case *vpSched:
+				lo = x.local
 			case *Local:
 				lo = x
 			case *Trunk:
@@ -873,7 +893,86 @@ func (w *vpWorld) issuedOnLocked(a netip.Addr) (string, bool) {
 	return e, ok
 }
 
+// vpSched stands between the manager and one interface of its list. It changes nothing an
+// interface does; it owns the schedule of one thing: a DEL that carries a vpSlow marker in
+// its context is held, once, just before it asks the first interface that does not own the
+// address (a goroutine that loses the processor between two interfaces of the walk).
+type vpSched struct {
+	NetworkInterface
+	local *Local
+}
+
+func (s *vpSched) Usage() (int, int, error) { return s.NetworkInterface.(Usage).Usage() }
+func (s *vpSched) Status() Status           { return s.NetworkInterface.(ReportStatus).Status() }
+
+func (s *vpSched) Release(ctx context.Context, cni *daemon.CNI, request NetworkResource) (bool, error) {
+	if sl, ok := ctx.Value(vpSlowKey{}).(*vpSlow); ok && sl != nil {
+		if res, ok := request.(*LocalIPResource); ok {
+			s.local.cond.L.Lock()
+			owner := s.local.eni != nil && s.local.eni.ID == res.ENI.ID
+			s.local.cond.L.Unlock()
+			if !owner && sl.parked.CompareAndSwap(false, true) {
+				close(sl.entered)
+				<-sl.resume
+			}
+		}
+	}
+	return s.NetworkInterface.Release(ctx, cni, request)
+}
+
+type vpSlowKey struct{}
+
+type vpSlow struct {
+	parked  atomic.Bool
+	entered chan struct{}
+	resume  chan struct{}
+}
+
+// doSlowRelease: a DEL whose walk over the manager's interfaces is held between two
+// interfaces while a balancer pass or the ADD of another pod is started. On the unchanged
+// tree the DEL holds the manager's read lock for the whole walk, so the other operation
+// waits (it gets a bounded head start, then the DEL is let go); either way the DEL must have
+// released the pod's address when it reports success.
+func (w *vpWorld) doSlowRelease(o vpOp) {
+	pid := vpPodID(o.Pod)
+	cni := &daemon.CNI{PodName: fmt.Sprintf("p%d", o.Pod), PodNamespace: "ns", PodID: pid}
+	sl := &vpSlow{entered: make(chan struct{}), resume: make(chan struct{})}
+	done := make(chan struct{})
+	go func() {
+		defer close(done)
+		w.releaseCtx(context.WithValue(context.Background(), vpSlowKey{}, sl), pid, cni)
+	}()
+	select {
+	case <-done:
+		return
+	case <-sl.entered:
+	}
+	w.flag(func() { w.slowRelease = true })
+	other := make(chan struct{})
+	go func() {
+		defer close(other)
+		if o.B%2 == 0 {
+			ctx, cancel := context.WithTimeout(w.ctx, vpAllocTimeout)
+			w.mgr.syncPool(ctx)
+			cancel()
+		} else {
+			w.doAlloc(vpOp{Kind: "alloc", Pod: o.A % vpPods})
+		}
+	}()
+	select {
+	case <-other:
+	case <-time.After(time.Duration(60+o.JitterUS) * time.Microsecond):
+	}
+	close(sl.resume)
+	<-done
+	<-other
+}
+
 func (w *vpWorld) release(pid string, cni *daemon.CNI) {
+	w.releaseCtx(context.Background(), pid, cni)
+}
+
+func (w *vpWorld) releaseCtx(ctx context.Context, pid string, cni *daemon.CNI) {
 	w.mu.Lock()
 	r := w.podRes[pid]
 	if r != nil {
@@ -899,7 +998,7 @@ func (w *vpWorld) release(pid string, cni *daemon.CNI) {
 	w.c.Trace("release %s %s on %s", pid, r.IP.String(), r.ENI.ID)
 	// daemon.ReleaseIP rebuilds the resource from the stored item (id + mac + addresses)
 	rr := &LocalIPResource{ENI: daemon.ENI{ID: r.ENI.ID, MAC: r.ENI.MAC}, IP: types.IPSet2{IPv4: r.IP.IPv4, IPv6: r.IP.IPv6}}
-	_ = w.mgr.Release(context.Background(), cni, &ReleaseRequest{NetworkResources: []NetworkResource{rr}})
+	_ = w.mgr.Release(ctx, cni, &ReleaseRequest{NetworkResources: []NetworkResource{rr}})
 }
 
 func (w *vpWorld) doOp(o vpOp) {
@@ -927,6 +1026,8 @@ func (w *vpWorld) doOp(o vpOp) {
 	case "release":
 		pid := vpPodID(o.Pod)
 		w.release(pid, &daemon.CNI{PodName: fmt.Sprintf("p%d", o.Pod), PodNamespace: "ns", PodID: pid})
+	case "slowrelease":
+		w.doSlowRelease(o)
 	case "syncpool":
 		ctx, cancel := context.WithTimeout(w.ctx, vpAllocTimeout)
 		w.mgr.syncPool(ctx)
@@ -1395,6 +1496,20 @@ func vpRunOpt(c *vt.Ctx, s vpScenario, noGuard bool) {
 					nAlloc++
 				}
 			}
+			if o.Kind == "slowrelease" {
+				if seen[o.Pod] {
+					continue
+				}
+				seen[o.Pod] = true
+				if o.B%2 == 1 {
+					if other := o.A % vpPods; seen[other] {
+						o.B = 0 // that pod already has a request in this round: a balancer pass instead
+					} else {
+						seen[other] = true
+						nAlloc++
+					}
+				}
+			}
 			ops = append(ops, o)
 		}
 		if nAlloc > w.idleCount() {
@@ -1467,6 +1582,9 @@ func (w *vpWorld) report(c *vt.Ctx) {
 	}
 	if w.staleRelease {
 		c.Label("stale-release")
+	}
+	if w.slowRelease {
+		c.Label("del-held-between-two-interfaces")
 	}
 	if w.repeatAlloc {
 		c.Label("repeat-alloc")
